@@ -91,6 +91,9 @@ type Trace struct {
 	// ProbeBacklogs: probes whose read at the fresh leader was issued while that store had
 	// applied fewer write commands than the cut-off leader had.
 	ProbeBacklogs int `json:"probe_backlogs,omitempty"`
+	// ProbeReadsServedBehind: probe reads answered OK by the fresh leader while it had applied
+	// fewer write commands than the cut-off leader had when it was cut off.
+	ProbeReadsServedBehind int `json:"probe_reads_served_behind,omitempty"`
 }
 
 // FlavorOf assigns the targeted "dup-transfer" pattern to every fifth case.
@@ -514,9 +517,15 @@ func Run(plan Plan, dir string, rng *rand.Rand, caughtUpWatchdog time.Duration) 
 				var probeOps []Op
 				// the other stores apply slowly while the leader acknowledges a burst of
 				// writes: whoever is elected next starts with committed, unapplied entries
+				// (one of them only: a fresh leader with a slow state machine gets its quorum
+				// acknowledgements from the quick store while its own backlog is still draining)
+				slow := 0
 				for i := range cl.Nodes {
 					if i != l {
-						cl.SetApplyDelay(i, 15*time.Millisecond)
+						if (probeN+slow)%2 == 0 {
+							cl.SetApplyDelay(i, 25*time.Millisecond)
+						}
+						slow++
 					}
 				}
 				cl.SetAsyncDelivery(true)
@@ -542,6 +551,9 @@ func Run(plan Plan, dir string, rng *rand.Rand, caughtUpWatchdog time.Duration) 
 					}
 				}
 				cl.Isolate(l)
+				// slow links among the remaining stores: the fresh leader's first entry takes a
+				// few rounds to commit, so the read below is queued behind it inside raft
+				cl.SetFaults(0, 0, 8)
 				probeOps = append(probeOps, burst...)
 				nl := -1
 				for dl := time.Now().Add(3 * time.Second); nl < 0 && time.Now().Before(dl); {
@@ -563,20 +575,32 @@ func Run(plan Plan, dir string, rng *rand.Rand, caughtUpWatchdog time.Duration) 
 					if backlog > 0 {
 						tr.ProbeBacklogs++
 					}
+					atCut := cl.AppliedOn(l, reg)
+					st0, _ := cl.Status(nl, reg)
+					t0 := time.Now()
 					r1 := read(nl)
+					st1, _ := cl.Status(nl, reg)
+					dbg(fmt.Sprintf("probe read at %d: before commit=%d applied=%d term=%d; after %v commit=%d applied=%d; store applied %d vs cut %d", nl, st0.Commit, st0.Applied, st0.Term, time.Since(t0), st1.Commit, st1.Applied, cl.AppliedOn(nl, reg), atCut))
+					if r1.Outcome == "ok" && cl.AppliedOn(nl, reg) < atCut {
+						// the read was answered while the fresh leader's state machine was still
+						// behind what the old leader had acknowledged (legal only for other keys)
+						tr.ProbeReadsServedBehind++
+					}
 					cl.SetAsyncDelivery(false)
+					cl.SetFaults(0, 0, 0)
 					for i := range cl.Nodes {
 						cl.SetApplyDelay(i, 0)
 					}
 					w1 := write(nl, "new")
 					r2 := read(l)
 					probeOps = append(probeOps, r1, w1, r2)
-					ev.Note = fmt.Sprintf("region %d key %s: old leader %d (write %s), new leader %d: read %s, write %s; read at old leader %s", reg, key, l, w0.Outcome, nl, r1.Outcome, w1.Outcome, r2.Outcome)
+					ev.Note = fmt.Sprintf("region %d key %s: old leader %d (write %s %s), new leader %d (backlog %d when the read was issued): read %s %q, write %s; read at old leader %s %q", reg, key, l, w0.Marker, w0.Outcome, nl, backlog, r1.Outcome, r1.Value, w1.Outcome, r2.Outcome, r2.Value)
 					tr.Probes = append(tr.Probes, fmt.Sprintf("%s/%s/%s/%s", w0.Outcome, r1.Outcome, w1.Outcome, r2.Outcome))
 				} else {
 					ev.Note = fmt.Sprintf("region %d: store %d isolated, no new leader within the watchdog", reg, l)
 				}
 				cl.SetAsyncDelivery(false)
+				cl.SetFaults(0, 0, 0)
 				for i := range cl.Nodes {
 					cl.SetApplyDelay(i, 0)
 				}
